@@ -168,7 +168,9 @@ func execOne(e *Engine, rl *raceLog, rc *RunCtx) {
 	e.Run(rc)
 	if rl != nil {
 		// a race outranks whatever else the run found: it is the arm's oracle
-		if rc.Viol == nil {
+		// (a run that left threads blocked for real is torn down without
+		// synchronisation: its reports are artefacts of the teardown)
+		if rc.Viol == nil && !rc.Fatal {
 			checkRace(rl, rc)
 		} else {
 			rl.poll()
@@ -214,6 +216,9 @@ func Worker(prop, tier string, seed int64, shard, of, runs int, arm string, dead
 		res.Steps += rc.Steps
 		res.SimTimeNs += rc.SimTimeNs
 		res.LogHash ^= rc.LogHash() * uint64(2*idx+1)
+		if rc.Fatal {
+			res.TimedOut = true // remaining indexes of this shard are skipped and reported as not run
+		}
 		for k, v := range rc.Faults {
 			res.Faults[k] += v
 		}
@@ -317,9 +322,16 @@ func ShrinkFile(in, out string) error {
 		budget = 600
 	}
 	var last *RunCtx
+	poisoned := false
 	fails := func(vals []uint64) ([]uint64, bool) {
+		if poisoned {
+			return nil, false
+		}
 		rc := &RunCtx{Prop: vr.Property, Tier: vr.Tier, Seed: vr.Seed, Index: vr.Index, Arm: vr.Arm, T: ReplayTape(vals), ReplayBlob: vr.Blob}
 		execOne(e, rl, rc)
+		if rc.Fatal {
+			poisoned = true // a thread is blocked for real: this process cannot run further candidates
+		}
 		if rc.Viol != nil && rc.Viol.Key == vr.Viol.Key {
 			last = rc
 			return rc.T.Used(), true
@@ -335,7 +347,13 @@ func ShrinkFile(in, out string) error {
 	}
 	min, execs := Shrink(vr.Tape, budget, fails)
 	// final execution on the minimal tape for decoded output
-	if _, ok := fails(min); ok {
+	if poisoned && last != nil {
+		vr.Tape = append([]uint64(nil), last.T.Used()...)
+		vr.Shrunk = true
+		vr.Execs = execs
+		vr.Viol = *last.Viol
+		vr.Decoded = last.Decoded
+	} else if _, ok := fails(min); ok {
 		vr.Tape = min
 		vr.Shrunk = true
 		vr.Execs = execs
@@ -430,7 +448,7 @@ func runArm(e *Engine, o Options, bin, arm string, runs int, wallCap float64) (*
 			cmd.Env = append(os.Environ(), "GOMAXPROCS=2")
 			if arm == "race" {
 				cmd.Env = append(cmd.Env,
-					"GORACE=halt_on_error=0 history_size=3 log_path="+filepath.Join(tmp, "race"),
+					"GORACE=halt_on_error=0 exitcode=0 log_path="+filepath.Join(tmp, "race"),
 					"VERIF_RACELOG="+filepath.Join(tmp, "race"))
 			}
 			var so, se bytes.Buffer
@@ -732,7 +750,7 @@ func raceEnv(arm string) []string {
 	env := os.Environ()
 	if arm == "race" {
 		d, _ := os.MkdirTemp("", "racelog-")
-		env = append(env, "GORACE=halt_on_error=0 history_size=3 log_path="+filepath.Join(d, "race"), "VERIF_RACELOG="+filepath.Join(d, "race"))
+		env = append(env, "GORACE=halt_on_error=0 exitcode=0 log_path="+filepath.Join(d, "race"), "VERIF_RACELOG="+filepath.Join(d, "race"))
 	}
 	return env
 }
